@@ -136,7 +136,10 @@ META = dict(
                 "call_does_not_write_enclosing_frames (every outcome; hypothesis = the defaults of THIS parameter list preserve the frame "
                 "invariant; call_frames_noDefaults, frame_contents, param_value (exact contents of a finished frame) need none; instantiated on "
                 "the real eval in examples), "
-                "args_missing_default_extra_ignored; read_after_write_path on setValue / getValue themselves for any nesting (containerWalk "
+                "args_missing_default_extra_ignored; ScopesWF (parent index < own index, children point back) preserved by buildFrame with its frame "
+                "link (call_preserves_wf), calls without defaults: frame invisible from every existing scope with no hypothesis on the evaluator "
+                "(call_frame_invisible_noDefaults), setValue / setLocalValue for every name and outcome (writes_preserve_wf), the control-flow "
+                "combinators preserve every invariant their parts preserve (control_flow_preserves_invariants); read_after_write_path on setValue / getValue themselves for any nesting (containerWalk "
                 "and containerGet reach the same cell, fieldKey = the key setValue writes, negative list indices) and "
                 "prims_by_value_containers_by_ref (a write through one name is read through any alias reaching the same cell); "
                 "len_add_del_concat_model: len / add / add-at-index / del / del(map) / concat refine an independent list / finite-map Spec, every "
@@ -145,9 +148,8 @@ META = dict(
                 "new_has_all_template_props (string keys of all templates reachable through super lists, cyclic templates cut as f42b440 does; "
                 "own non-function property wins), method_this, init_once_with_args, init_once_with_args_and_supers, init_reads_super, "
                 "addSuperClasses_cycle."),
-    level_note=("Not proved: that the well-formedness of the scope table (ScopesWF: parent index < own index, children point back) is "
-                "preserved by the evaluator as a whole — it is proved for each scope constructor (initial table, new root, newChild, variable "
-                "writes), which are the only ways the model changes the table; that eval never touches an unreferenced root scope (so the default-evaluation hypothesis of the frame theorems is discharged per "
+    level_note=("Not proved: the induction over the mutual evaluator that combines the proved pieces (every function that changes St.scopes "
+                "and every control-flow combinator preserves ScopesWF) into `eval preserves ScopesWF`; that eval never touches an unreferenced root scope (so the default-evaluation hypothesis of the frame theorems is discharged per "
                 "example, not in general); inherited VALUES and later-super-wins only per copy step; bindParamNode propagates a setValue error "
                 "where Go drops it (unreachable for parser-made names). Hypotheses: Float == reflexive on integer keys (Lean's Float is "
                 "opaque); object theorems are about string keys, templates other than the fresh object, list slot 0 = nil slice; no "
